@@ -1,7 +1,7 @@
 import Driver.Machine
 import Driver.Sut.MVReg
 import Driver.Sut.Orswot
-import CrdtModel.Model.Map
+import CrdtModel.Model.MapInst
 /-! Driver records for `Map<u64, V, u64>` with V = MVReg, Orswot, Map<_, MVReg> – mirror of harness/src/sut/map.rs. -/
 namespace Driver
 open Crdt
@@ -23,8 +23,7 @@ def commas (s : String) : String := s.replace " " ","
 def showCtx' {β : Type} (r : ReadCtx β Nat) : String := showClock r.addClock ++ "/" ++ showClock r.rmClock
 
 def nestedMV : NestedSut (MVReg Nat Nat) (MVOp Nat Nat) where
-  ops := { default := MVReg.init, apply := MVReg.apply, merge := MVReg.merge, resetRemove := MVReg.resetRemove,
-           validateOp := fun _ _ => true, validateMerge := fun _ _ => true, eq := MVReg.eq }
+  ops := MVReg.valOps
   gen := fun v ctx args => match args with
     | ["write", x] => x.toNat?.map (fun x => v.write x ctx)
     | _ => none
@@ -44,9 +43,7 @@ def isOk {ε α : Type} : Except ε α → Bool
   | .error _ => false
 
 def nestedOR : NestedSut OS OOp where
-  ops := { default := Orswot.init, apply := Orswot.apply, merge := Orswot.merge, resetRemove := Orswot.resetRemove,
-           validateOp := fun s op => isOk (s.validateOp op), validateMerge := fun s o => isOk (s.validateMerge o),
-           eq := fun a b => some (decide (a = b)) }
+  ops := Orswot.valOps
   gen := fun v ctx args => match args with
     | ["add", m] => m.toNat?.map (fun m => Orswot.add m ctx)
     | ["addall", ms] => (parseNats ms).map (fun ms => Orswot.addAll ms ctx)
@@ -118,14 +115,7 @@ def mapReads (N : NestedSut V VOp) (m : MapT V) : String :=
   " values=[" ++ joinWith ";" (m.values.map (fun c => N.read c.val ++ ":" ++ showCtx' c)) ++ "]" ++
   " iter=[" ++ joinWith ";" (m.iter.map (fun c => toString c.val.1 ++ ":" ++ N.read c.val.2 ++ ":" ++ showCtx' c)) ++ "]"
 
-def mapValOps (N : NestedSut V VOp) : ValOps (MapT V) (MapOpT VOp) Nat where
-  default := CMap.init
-  apply := CMap.apply N.ops
-  merge := CMap.merge N.ops
-  resetRemove := CMap.resetRemove N.ops
-  validateOp := fun s op => isOk (CMap.validateOp N.ops id s op)
-  validateMerge := fun s o => isOk (CMap.validateMerge N.ops s o)
-  eq := CMap.eq N.ops
+def mapValOps (N : NestedSut V VOp) : ValOps (MapT V) (MapOpT VOp) Nat := CMap.valOps N.ops id
 
 def nestedMap (N : NestedSut V VOp) : NestedSut (MapT V) (MapOpT VOp) where
   ops := mapValOps N
